@@ -153,11 +153,11 @@ it: `b2` is at most the size fitting `avail` and at most 6; the Block2 option, i
 `tokOpts0`) and a body below 2^32 bytes; ETags of different lg_xmits differ -/
 structure B2ParOK (P : B2Par) : Prop where
   len : P.body.length < 2 ^ 32
-  ms : ∀ szx, (P.cfg szx).maxSize < 2 ^ 62
-  tok : ∀ szx, (P.cfg szx).tokOpts0 ≤ (P.cfg szx).base + 43
-  b2 : ∀ szx, (16 : Int) ≤ adlAvail (P.cfg szx).maxSize (P.cfg szx).tokOpts0 (P.cfg szx).tokLen →
-    ((2 ^ ((P.cfg szx).b2 + 4) : Nat) : Int) ≤ adlAvail (P.cfg szx).maxSize (P.cfg szx).tokOpts0 (P.cfg szx).tokLen
-  b26 : ∀ szx, (P.cfg szx).b2 ≤ 6
+  ms : ∀ szx c, P.cfg szx = some c → c.maxSize < 2 ^ 62
+  tok : ∀ szx c, P.cfg szx = some c → c.tokOpts0 ≤ c.base + 43
+  b2 : ∀ szx c, P.cfg szx = some c → (16 : Int) ≤ adlAvail c.maxSize c.tokOpts0 c.tokLen →
+    ((2 ^ (c.b2 + 4) : Nat) : Int) ≤ adlAvail c.maxSize c.tokOpts0 c.tokLen
+  b26 : ∀ szx c, P.cfg szx = some c → c.b2 ≤ 6
   inj : ∀ k1 k2, P.etagOf k1 = P.etagOf k2 → k1 = k2
 
 theorem respOK_mono (P : B2Par) (s s' : B2Sys) (r : Resp) (hle : s.srvEtag ≤ s'.srvEtag) (h : RespOK P s r) :
@@ -181,18 +181,21 @@ theorem srvOnReq_inv (P : B2Par) (hP : B2ParOK P) (s : B2Sys) (num szx : Nat) (h
   unfold srvOnReq
   by_cases h0 : num = 0
   · rw [if_pos h0]
+    cases hcfg : P.cfg szx with
+    | none => exact hdrop
+    | some c =>
     simp only
-    cases ha : adlBody (P.cfg szx).maxSize (P.cfg szx).tokLen (P.cfg szx).base (P.cfg szx).d (P.cfg szx).tokOpts0
-        (P.cfg szx).b2 P.body.length (P.cfg szx).extra (P.cfg szx).blk with
+    cases ha : adlBody c.maxSize c.tokLen c.base c.d c.tokOpts0 c.b2 P.body.length c.extra c.blk with
     | none => exact hdrop
     | some r =>
       simp only
       by_cases hlg : r.lgXmit = true
       · rw [if_pos hlg]
-        obtain ⟨f1, f2, f3, f4⟩ := adlBody_first _ _ _ _ _ _ _ _ _ r (hP.ms szx) hP.len (hP.tok szx) (hP.b2 szx) ha hlg
+        obtain ⟨f1, f2, f3, f4⟩ := adlBody_first _ _ _ _ _ _ _ _ _ r (hP.ms szx c hcfg) hP.len (hP.tok szx c hcfg)
+          (hP.b2 szx c hcfg) ha hlg
         rw [f1]
         simp only
-        have hB : r.blkSize ≤ 6 := by have := hP.b26 szx; omega
+        have hB : r.blkSize ≤ 6 := by have := hP.b26 szx c hcfg; omega
         have hv16 : blockValue 0 1 r.blkSize / 16 = 0 := by unfold blockValue; omega
         have hv8 : (blockValue 0 1 r.blkSize / 8) % 2 = 1 := by unfold blockValue; omega
         have hvs : blockValue 0 1 r.blkSize % 8 = r.blkSize := by unfold blockValue; omega
